@@ -17,7 +17,7 @@ for p in props:
     pid = p["id"]
     if pid in na:
         continue
-    open(f"{out}/prop_{pid}.txt", "w").write(f"{p['title']}\n\n{p['statement']}\n\nQuantifier: {p.get('quantifier', '')}\n")
+    open(f"{out}/prop_{pid}.txt", "w").write(f"{p['title']}\n\n{p['statement']}\n\nQuantifier: {(p.get('quantifier') or {}).get('text', '')}\n")
     done = " ".join(f"({i+1}) {n.rstrip('.;')};" for i, n in enumerate(earlier.get(pid, [])))
     open(f"{out}/seed{tag}_{pid}.txt", "w").write(T.replace("{P}", pid).replace("{WT}", f"{out}/{pid}").replace("{OUT}", out).replace("{DONE}", done))
 print("prompts written for", len(props) - len(na), "properties")
